@@ -74,6 +74,7 @@ type VC struct {
 	siteOrd        map[ssa.Instruction]int
 	fmtIDs         map[string]int
 	sprintfFormats map[string]string
+	recHeaps       map[string]string // heap components read while a fold body is translated
 }
 
 func NewVC(p *Program, fn *ssa.Function, c *FuncContract) *VC {
@@ -143,6 +144,9 @@ func (vc *VC) heapGet(st *State, name, arrSort string) Term {
 		vc.heapSorts = map[string]string{}
 	}
 	vc.heapSorts[name] = arrSort
+	if vc.recHeaps != nil {
+		vc.recHeaps[name] = arrSort
+	}
 	if t, ok := st.heap[name]; ok {
 		return t
 	}
